@@ -614,7 +614,51 @@ fn fresh_world(init_toks: &[String], history: &[(Event, Option<Algo>)]) -> World
     w
 }
 
+/// CONFIGURATION SHAPE (cfg audit) `rundrop2 <mode> J K`: audit OFF, then ON, on the same engine. Every engine
+/// of `rundrop` first runs the events 0..J of the history through the runner WITHOUT audit (`sync_run` /
+/// `async_run`), then - as `SystemBuilder::init` does for an audited system - takes an `audit_snapshot` of the
+/// now pre-populated engine (sequence counter > 1) and runs the rest of the feed (what the first run did not
+/// consume) as `rundrop K` does. Returns the number of events the first run consumed.
+fn cfg_pre_run(w: &mut World, history: &[(Event, Option<Algo>)], mode: &str, j: usize, rt: &tokio::runtime::Runtime, lines: Option<&mut Vec<String>>) -> usize {
+    let cell = w.built.engine.strategy.tick.clone();
+    let c2 = cell.clone();
+    let mut feed = history[..j.min(history.len())].iter().map(|(e, _)| e.clone()).inspect(move |_| c2.set(c2.get() + 1));
+    let last: Audit = if mode == "sync" {
+        sync_run(&mut feed, &mut w.built.engine)
+    } else {
+        let mut stream = futures::stream::iter(feed);
+        rt.block_on(async_run(&mut stream, &mut w.built.engine))
+    };
+    let end_seq = w.built.engine.meta.sequence.value();
+    let snapshot = <TestEngine as Auditor<Audit>>::audit_snapshot(w.engine());
+    if let Some(lines) = lines {
+        lines.push(format!("pre_last {}", last_kind(&last)));
+        lines.push(format!("pre_end_seq {end_seq}"));
+        lines.push(format!("snap2_seq {}", snapshot.context.sequence.value()));
+    }
+    cell.get() as usize
+}
+
 fn rundrop(init_toks: &[String], history: &[(Event, Option<Algo>)], mode: &str, k: usize, lines: &mut Vec<String>) {
+    rundrop_from(init_toks, history, mode, k, None, lines)
+}
+
+fn rundrop_from(init_toks: &[String], history: &[(Event, Option<Algo>)], mode: &str, k: usize, pre: Option<usize>, lines: &mut Vec<String>) {
+    let rt0 = tokio::runtime::Builder::new_current_thread().build().unwrap();
+    let mut wa = fresh_world(init_toks, history);
+    let c1 = match pre {
+        Some(j) => cfg_pre_run(&mut wa, history, mode, j, &rt0, Some(lines)),
+        None => 0,
+    };
+    let full_history = history;
+    let history = &full_history[c1..];
+    let fresh_world = |init_toks: &[String], _: &[(Event, Option<Algo>)]| -> World {
+        let mut w = fresh_world(init_toks, full_history);
+        if let Some(j) = pre {
+            cfg_pre_run(&mut w, full_history, mode, j, &rt0, None);
+        }
+        w
+    };
     let events: Vec<Event> = history.iter().map(|(e, _)| e.clone()).collect();
     let feed_for = |w: &World, k: usize, rx: Option<UnboundedRx<Tick>>| {
         let rx = Rc::new(RefCell::new(rx));
@@ -628,7 +672,6 @@ fn rundrop(init_toks: &[String], history: &[(Event, Option<Algo>)], mode: &str, 
     let rt = tokio::runtime::Builder::new_current_thread().build().unwrap();
 
     // (a) audited run, receiver dropped before the K-th feed.next()
-    let mut wa = fresh_world(init_toks, history);
     let (tx, rx) = mpsc_unbounded::<Tick>();
     let mut audit_tx = ChannelTxDroppable::new(tx);
     let (mut feed, rx_cell, got) = feed_for(&wa, k, Some(rx));
@@ -951,6 +994,10 @@ fn engine_op(st: &mut Option<EngineSt>, op: &[String], lines: &mut Vec<String>) 
             let s = st.as_ref().expect("init first");
             rundrop(&s.init_toks, &s.history, &op[1], op[2].parse().unwrap(), lines);
         }
+        "rundrop2" => {
+            let s = st.as_ref().expect("init first");
+            rundrop_from(&s.init_toks, &s.history, &op[1], op[3].parse().unwrap(), Some(op[2].parse().unwrap()), lines);
+        }
         "runprod" => {
             let s = st.as_ref().expect("init first");
             runprod(&s.init_toks, &s.history, &op[1], op[2].parse().unwrap(), lines);
@@ -979,7 +1026,7 @@ fn run() {
                 "index" | "ipush" | "iclose" | "ipoll" => index_op(&mut ix, op, lines),
                 "snap" | "snapupd" => snapshot_op(op, lines),
                 "prod" | "pupd" | "precv" | "pdroprx" | "pdisable" | "pdroptx" => prod_op(&mut pr, op, lines),
-                "init" | "algo" | "ev" | "rundrop" | "runprod" => engine_op(&mut en, op, lines),
+                "init" | "algo" | "ev" | "rundrop" | "rundrop2" | "runprod" => engine_op(&mut en, op, lines),
                 other => panic!("bad op {other}"),
             }
         }
@@ -1531,6 +1578,22 @@ fn generate(seed: u64, n_cases: usize, tier: &str) {
     for k in 0..(if tier == "thorough" { 10 } else { 2 }) {
         out.case(format!("le{k}"));
         gen_engine_wide(&mut wrng, &mut out, tier, true);
+    }
+    // configuration-shape family (cfg audit), seeded apart: an engine history as `gen_engine` draws it, then
+    // `rundrop2 <mode> J K` = audit off for the events 0..J, then a second snapshot and the audited run with the
+    // receiver dropped at K on the SAME, pre-populated engine (J = 0: empty first run; J >= length: the audited
+    // run is the empty one; a shutdown / fatal event inside 0..J: the second run starts on a stopped engine)
+    let mut crng = Rng::new(seed ^ 0xCF61_10C0);
+    for k in 0..n_cases / 8 {
+        out.case(format!("cfg{k}"));
+        gen_engine(&mut crng, &mut out, tier);
+        for _ in 0..crng.range(1, 3) {
+            let j = match crng.below(5) {
+                0 => 0,
+                _ => crng.below(if tier == "thorough" { 18 } else { 11 }),
+            };
+            out.line(format!("rundrop2 {} {j} {}", if crng.chance(50) { "sync" } else { "async" }, crng.below(10)));
+        }
     }
     out.flush();
 }
